@@ -154,9 +154,8 @@ Theorem standard_replacement_eq_spec_refuted :
 Proof. exact standard_replacement_eq_spec_refuted_proof. Qed.
 Print Assumptions standard_replacement_eq_spec_refuted.
 
-(* non-vacuity of 5/6 and the seeded-defect shape: the matcher of `(\w+)\n\b` on "a\nb\n\n" (a
-   match must see the first byte of the NEXT line): range 0..4 holds two adjacent matches, the
-   second needs... nothing after the block here; range of "a\n" alone in "a\nb\n\n" needs "b". *)
+(* non-vacuity of 5/6: the matcher of `(\w+)\n\b` (a match must see the first byte of the NEXT
+   line) on "a\nb\n\n"; the range of the line "a\n" needs the byte 'b' that lies after the range. *)
 Definition la_word (b : N) : bool := ((97 <=? b) && (b <=? 122))%N.
 Definition la_matcher (hay : bytes) (p : nat) : option caps :=
   match find (fun i => Nat.leb p i
